@@ -95,7 +95,10 @@ def call(iface, path, chunk, method, headers):
         return SV.run_wsgi(FileResponse(path, **kw), SV.to_environ(req))
     from baize.asgi import FileResponse
     ext = {"http.response.zerocopysend": {}} if iface == "zerocopy" else None
-    return SV.run_asgi(FileResponse(path, **kw), SV.to_scope(req, extensions=ext), SV.to_messages(req))
+    scope = SV.to_scope(req, extensions=ext)
+    if len(repr(headers)) % 2:
+        scope["headers"] = iter(scope["headers"])  # ASGI promises an iterable, not a list: about every other request gets one that can be read once
+    return SV.run_asgi(FileResponse(path, **kw), scope, SV.to_messages(req))
 
 
 def parse_byteranges(body, boundary, size):
